@@ -352,6 +352,24 @@ func (e *Pattern) writeTo(s *strings.Builder) {
 	}
 }
 
+func (e *Pattern) variables(names []string) []string {
+	if e.Name != "" {
+		return append(names, e.Name)
+	}
+	for _, p := range e.Array {
+		names = p.variables(names)
+	}
+	for _, kv := range e.Object {
+		if kv.Key != "" && kv.Key[0] == '$' {
+			names = append(names, kv.Key)
+		}
+		if kv.Val != nil {
+			names = kv.Val.variables(names)
+		}
+	}
+	return names
+}
+
 // PatternObject ...
 type PatternObject struct {
 	Key       string
